@@ -148,8 +148,17 @@ pub struct Run {
     pub legacy_pending: String,
 }
 
+thread_local! {
+    static SWAP: std::cell::Cell<bool> = std::cell::Cell::new(false);
+}
+/// the counterparty's channel id; with `swap` the remote end of ch1 is called "ch2" and vice versa, so that a
+/// remote id coincides with the id of another local channel
 fn remote_of(ch: &str) -> String {
-    format!("r{ch}")
+    if SWAP.with(|s| s.get()) {
+        match ch { "ch1" => "ch2".into(), "ch2" => "ch1".into(), _ => format!("r{ch}") }
+    } else {
+        format!("r{ch}")
+    }
 }
 
 impl Run {
@@ -176,6 +185,7 @@ impl Run {
     pub fn start(cfg: &Value, run_no: u64, out: &mut Out) -> Option<Run> {
         let log2 = cfg.get("scale").and_then(|x| x.as_u64()).unwrap_or(0);
         let sc = Scale::new(1u128 << log2);
+        SWAP.with(|s| s.set(cfg.get("swap").and_then(|x| x.as_bool()).unwrap_or(false)));
         let mut w = World::new();
         for u in USERS {
             w.user(u);
@@ -577,7 +587,8 @@ impl Run {
 pub fn rand_cfg(rng: &mut Rng) -> Value {
     let legacy = match rng.below(8) { 0 | 1 => "v1", 2 => "v2", _ => "none" };
     // the supported upgrade path from the old formats requires a single open channel
-    let channels = if legacy != "none" || rng.chance(1, 2) { json!(["ch1"]) } else { json!(["ch1", "ch2"]) };
+    let channels = if (legacy != "none" && rng.chance(2, 3)) || rng.chance(1, 2) { json!(["ch1"]) } else { json!(["ch1", "ch2"]) };
+    let swap = rng.chance(1, 3);
     let dg: i64 = if rng.chance(1, 2) { -1 } else { *rng.pick(&[100i64, 500]) };
     let allow = if rng.chance(1, 2) { json!([{"gas": *rng.pick(&[-1i64, 200, 800])}]) } else { json!([]) };
     let scale = if rng.chance(1, 4) { 40 } else { 0 };
@@ -595,7 +606,7 @@ pub fn rand_cfg(rng: &mut Rng) -> Value {
     }
     // a token can only have been sent (pre-history) if it was sendable then
     let (dg, allow) = if legacy == "v1" { (100, json!([{"gas":-1}])) } else if legacy == "v2" { (dg, json!([{"gas":200}])) } else { (dg, allow) };
-    json!({"channels":channels,"defaultGas":dg,"allow":allow,"legacy":legacy,"scale":scale,"pre":pre})
+    json!({"channels":channels,"defaultGas":dg,"allow":allow,"legacy":legacy,"scale":scale,"pre":pre,"swap":swap})
 }
 
 pub fn random_run(rng: &mut Rng, run_no: u64, len: usize, out: &mut Out) {
@@ -605,6 +616,10 @@ pub fn random_run(rng: &mut Rng, run_no: u64, len: usize, out: &mut Out) {
     if legacy {
         let g = if rng.chance(1, 2) { -1 } else { 300 };
         run.step(&json!({"act":"migrate","by":"creator","args":{"gas":g}}), out);
+        if run.is_legacy() {
+            // the upgrade was refused (several channels open): nothing else can be done with this contract
+            return;
+        }
     }
     let pkt_max = if run.sc.u > 1 { ((u64::MAX as u128) / run.sc.u) as u64 } else { 0 };
     let lg = run.is_legacy();
